@@ -61,6 +61,10 @@ class Fail(Exception):
     pass
 
 
+class BaseFail(BaseException):
+    """raised by the wrapped function: not an Exception (like GeneratorExit or an application-level abort)"""
+
+
 class FalsyFail(Fail):
     """false in a boolean context (see engines/sc.py FalsyBoom)"""
 
@@ -83,7 +87,10 @@ def gen_case(seed, tier, prop="C20"):
                 ops.append(["sleep", rng.choice([0.25, 0.5, 1.0, 2.0])])
             elif r < 0.9:
                 k = rng.choice(KEYS + ([1.0, 2.0] if typed else []))
-                ops.append(["call", k, rng.random() < 0.15, rng.random() < 0.15])   # key, fails, as keyword
+                fails = rng.random() < 0.15
+                if fails and rng.random() < 0.25:
+                    fails = "base"       # the wrapped function raises a BaseException that is not an Exception
+                ops.append(["call", k, fails, rng.random() < 0.15])   # key, fails, as keyword
             else:
                 ops.append(["clear"])
         return {"engine": "lru", "type": "seq", "maxsize": rng.choice([None, 0, 1, 2, 3, 128]), "typed": typed,
@@ -134,7 +141,7 @@ class RefLRU:
             del self.d[key]
         self.counter[0] += 1
         if self.plan["fail"]:
-            raise (FalsyFail if self.counter[0] % 2 else Fail)(k)
+            raise BaseFail(k) if self.plan["fail"] == "base" else (FalsyFail if self.counter[0] % 2 else Fail)(k)
         val = shape(k, self.counter[0])
         if self.maxsize == 0:
             return val
@@ -171,7 +178,7 @@ class SeqRun:
             na[0] += 1
             await sleep(0)
             if plan["fail"]:
-                raise (FalsyFail if na[0] % 2 else Fail)(k)
+                raise BaseFail(k) if plan["fail"] == "base" else (FalsyFail if na[0] % 2 else Fail)(k)
             return shape(k, na[0])
 
         if ttl is None:
@@ -179,7 +186,7 @@ class SeqRun:
             def sf(k=None):
                 ns[0] += 1
                 if plan["fail"]:
-                    raise (FalsyFail if ns[0] % 2 else Fail)(k)
+                    raise BaseFail(k) if plan["fail"] == "base" else (FalsyFail if ns[0] % 2 else Fail)(k)
                 return shape(k, ns[0])
         else:
             sf = RefLRU(c["maxsize"], c["typed"], ttl, ns, plan, lambda: anyio.current_time())
@@ -198,12 +205,12 @@ class SeqRun:
                 plan["fail"] = fails
                 try:
                     exp = ("ok", sf(k=k) if kw else sf(k))
-                except Fail as e:
-                    exp = ("fail", e.args)
+                except (Fail, BaseFail) as e:
+                    exp = ("fail", type(e).__name__.replace("Falsy", ""), e.args)
                 try:
                     got = ("ok", await (af(k=k) if kw else af(k)))
-                except Fail as e:
-                    got = ("fail", e.args)
+                except (Fail, BaseFail) as e:
+                    got = ("fail", type(e).__name__.replace("Falsy", ""), e.args)
                 except Exception as e:
                     got = ("error", repr(e))
                 self.h.rec("call", repr(k), got[0])
